@@ -2,7 +2,7 @@
 import re
 
 from ..engine import prop, rule
-from ..facts import op_local, op_place, is_place, backward_slice, switch_on, bool_edges, copy_chain_sources, IDENTITY_CALLS
+from ..facts import op_local, op_place, is_place, backward_slice, switch_on, bool_edges, copy_chain_sources, IDENTITY_CALLS, field_path
 from .. import lib, flags
 from .c02 import eq_guards, root_descr
 
@@ -249,3 +249,139 @@ def refresh_always_rebuilds(ctx):
               'Ok(()) <= usk.secrets rebuilt', 'refresh can return Ok(()) without having replaced the secrets of the user key by chains '
               'rebuilt from the master key (an early-success path): pruned or deleted secrets survive such a refresh',
               'every Ok(()) dominated by `usk.secrets = <rebuilt chains>`', rb.where())
+
+
+@rule('C05', 'rights-kept', configs=('default', 'p256'))
+def rights_kept(ctx):
+    """'... while it keeps everything else': the keep-old merge gives up a right only when the master key has no chain for it or
+    the user chain is empty. Structurally: in the body that builds the refreshed chain no `None` is returned explicitly; the only
+    `None` exits are `?` on the next() of the user chain / on the lookup of the right in the master key."""
+    F = ctx.F
+    n = 0
+    for body in lib.family_ext(F, 'core::primitives::refresh_coordinate_keys'):
+        builds = any(st['rv']['k'] == 'agg' and st['rv'].get('adt') == 'std::option::Option' and st['rv']['variant'] == 'Some'
+                     for b in body.live_blocks() for st in body.stmts(b))
+        if not builds or not body.locals[0]['ty'].startswith('std::option::Option<'):
+            continue
+        n += 1
+        bad = []
+        for (kind, what, ln) in none_sources(body, 0):
+            if kind == 'explicit':
+                bad.append(ln)
+            elif kind == 'call':
+                ok = (what.is_(r'^std::iter::Iterator::next$') and flags.PAIR_TY not in (what.self_ty or '')
+                      or what.is_(r'RevisionMap::<K, V>::(get|get_latest)$'))
+                if not ok:
+                    bad.append(ln)
+            else:
+                bad.append(ln)
+        ctx.check(not bad, 'core::primitives::refresh_coordinate_keys', 'a right is given up only when absent / empty',
+                  'the keep-old merge returns None (line %s) for a right that is in the master key and non-empty in the user key: a '
+                  'refreshed key silently loses a right it should keep (with its newest secret)' % bad[:3],
+                  'None only through `?` on the user chain / the master lookup', body.where())
+    ctx.floor(n, 1, 'bodies building a refreshed chain')
+
+
+@rule('C05', 'no-keep-old-latest-only', configs=('default', 'p256'))
+def no_keep_old_latest_only(ctx):
+    """Without keep-old a refreshed key holds, per right, the newest master secret and nothing of its former chain: the value
+    paired with the right in the rebuilt vector derives from get_latest of the master key, never from the user's own chain."""
+    F = ctx.F
+    rb = F.fn('core::primitives::refresh')
+    n = 0
+
+    def user_chain_places(sl, body, env_fields=()):
+        out = [pl for pl in sl.places if pl['l'] == 2 and tuple(field_path(pl))[:1] == ('1',)] if body.kind == 'Closure' and not env_fields else []
+        for pl in sl.places:
+            if pl['l'] == 1 and env_fields:
+                idx = [e.get('f') for e in pl['p'] if isinstance(e, dict) and 'f' in e][:1]
+                if idx and idx[0] in env_fields:
+                    out.append(pl)
+        return out
+    for outer in lib.family_ext(F, rb.key):
+        if outer.kind != 'Closure' or not outer.calls(r'RevisionMap::<K, V>::get_latest$'):
+            continue
+        cands = [(outer, None)]
+        # closures created in it and fed with the result of get_latest (`.map(|(_, key)| (r.clone(), key.clone()))`)
+        for (pb, b, st, rv, cl) in [x for cb in F.closures_of(rb.key) if cb.parent == outer.key for x in lib.closure_creation_sites(F, cb)]:
+            inner = F.bodies[rv['closure']]
+            tainted = set()
+            for i, o in enumerate(rv['ops']):
+                if is_place(o) and user_chain_places(backward_slice(outer, [o], follow_mutarg=False), outer):
+                    tainted.add(i)
+            fed = any(c.is_(r'^std::option::Option::<T>::(map|and_then)$') and
+                      backward_slice(pb, [c.args[0]], follow_mutarg=False).has_call(r'RevisionMap::<K, V>::get_latest$')
+                      for (pb2, c, _i) in lib.closure_consumers(F, inner))
+            cands.append((inner, (tainted, fed)))
+        for (body, info) in cands:
+            for b in sorted(body.live_blocks()):
+                for st in body.stmts(b):
+                    rv = st['rv']
+                    if not (rv['k'] == 'agg' and rv.get('tuple') and len(rv['ops']) == 2):
+                        continue
+                    if 'Right' not in body.local_ty(st['lhs']['l']):
+                        continue
+                    n += 1
+                    sl = backward_slice(body, [rv['ops'][1]], follow_mutarg=False)
+                    if info is None:
+                        own = user_chain_places(sl, body)
+                        latest = bool(sl.has_call(r'RevisionMap::<K, V>::get_latest$'))
+                    else:
+                        own = user_chain_places(sl, body, info[0]) if info[0] else []
+                        latest = info[1] and 2 in sl.params
+                    ctx.check(latest and not own, rb.key, 'secret <- get_latest only',
+                              'without keep-old the secrets paired with a right (line %d) %s: the refreshed key keeps secrets that were '
+                              'rotated out' % (st['ln'], 'derive from the user key\'s own chain' if own else 'do not come from get_latest'),
+                              'value <- msk.secrets.get_latest(right)', body.where(st['ln']))
+    ctx.floor(n, 1, 'pairs built by the no-keep-old branch of refresh')
+
+
+@rule('C05', 'api-wiring')
+def api_wiring(ctx):
+    """'Once old secrets of a right have been pruned ...': pruning for a policy covers every right a user key for that policy
+    holds, not only the right the policy targets (C04.api-wiring)."""
+    from . import c04
+    c04.api_wiring(ctx)
+
+
+def none_sources(body, l, seen=None, tsites=None):
+    """Why an Option-typed local can be None: [('explicit', None, line) | ('call', Call, line) | ('unknown', None, line)] — the
+    explicit `None` aggregates, the calls whose None is forwarded by `?`, followed through moves and through results assembled
+    on several paths (an inlined helper's return value)."""
+    seen = seen if seen is not None else set()
+    if l in seen:
+        return []
+    seen.add(l)
+    if tsites is None:
+        tsites = lib.try_sites(body)
+    out = []
+    for d in body.defs().get(l, []):
+        if d.kind == 'mutarg' or (d.lhs is not None and d.lhs['p']):
+            out.append(('unknown', None, 0))
+            continue
+        if d.kind == 'assign':
+            rv = d.rv
+            ln = body.stmts(d.b)[d.i]['ln'] if d.i is not None else 0
+            if rv['k'] == 'agg' and rv.get('adt') == 'std::option::Option':
+                if rv['variant'] == 'None':
+                    out.append(('explicit', None, ln))
+                continue
+            if rv['k'] == 'use' and is_place(rv['a']) and not op_place(rv['a'])['p']:
+                out += none_sources(body, op_local(rv['a']), seen, tsites)
+                continue
+            out.append(('unknown', None, ln))
+        else:
+            c = d.call
+            if c.is_(r'^std::ops::FromResidual::from_residual$'):
+                ts = [x for x in tsites if x.residual is c]
+                if not ts:
+                    out.append(('unknown', None, c.ln))
+                elif ts[0].src_def is not None and ts[0].src_def.kind == 'call':
+                    out.append(('call', ts[0].src_def.call, c.ln))
+                elif ts[0].src_local is not None:
+                    out += none_sources(body, ts[0].src_local, seen, tsites)
+                else:
+                    out.append(('unknown', None, c.ln))
+            else:
+                out.append(('call', c, c.ln))
+    return out
